@@ -621,3 +621,17 @@ func (c *Canon) RootVar(e ast.Expr) (types.Object, bool) {
 		}
 	}
 }
+
+// TermOfObj prints a variable object the way an identifier referring to it would print.
+func (c *Canon) TermOfObj(o types.Object) string {
+	if r, ok := c.roles[o]; ok {
+		return r
+	}
+	if def, ok := c.expand[o]; ok {
+		return c.Term(def)
+	}
+	if n, ok := c.names[o]; ok {
+		return n
+	}
+	return o.Name()
+}
